@@ -10,6 +10,10 @@
 #include <dune/common/bigunsignedint.hh>
 #include <dune/common/exceptions.hh>
 #include <dune/common/hash.hh>
+#if HAVE_MPI
+#include <mpi.h>
+#include <dune/common/parallel/mpitraits.hh>
+#endif
 
 #include "hcommon.hh"
 
@@ -25,6 +29,22 @@ extern "C" void dv_on_alarm(int) {
   (void)!write(2, "\n", 1);
   _exit(124);
 }
+
+
+#if HAVE_MPI
+// MPI is started at the first `mpi` case (singleton, no mpirun needed) with the per-case alarm disarmed: start-up time
+// depends on the load of the machine and is not the code under test
+static void ensureMpi() {
+  static bool up = false;
+  if (up) return;
+  unsigned left = alarm(0);
+  int flag = 0;
+  MPI_Initialized(&flag);
+  if (!flag) { MPI_Init(nullptr, nullptr); std::atexit([] { int f = 0; MPI_Finalized(&f); if (!f) MPI_Finalize(); }); }
+  up = true;
+  alarm(left ? left : dv_case_timeout);
+}
+#endif
 
 template <int k>
 struct Acc : Dune::Impl::numeric_limits_helper<Dune::bigunsignedint<k>> {
@@ -562,6 +582,35 @@ Result execK(const std::vector<std::string>& w) {
     else if (toMpz<k>(a) != A) res.oracle = "FAIL operand modified";
     return res;
   }
+  if (op == "mpi") {
+    // MPITraits<bigunsignedint<k>>::getType(): three values are sent through the datatype (MPI_Sendrecv on MPI_COMM_SELF)
+    // into a buffer holding other values; every digit of every element must arrive and the extent must be the object size
+#if HAVE_MPI
+    ensureMpi();
+    mpz_class V[3] = {bigArg(2), bigArg(3), bigArg(4)};
+    Big src[3], dst[3];
+    for (int i = 0; i < 3; ++i) { src[i] = fromMpz<k>(V[i]); dst[i] = fromMpz<k>(mpz_class((W - 1 - V[i]) ^ (W / 3))); }
+    MPI_Datatype t = Dune::MPITraits<Big>::getType();
+    int sz = 0; MPI_Aint lb = 0, ext = 0;
+    MPI_Type_size(t, &sz);
+    MPI_Type_get_extent(t, &lb, &ext);
+    MPI_Sendrecv(src, 3, t, 0, 10, dst, 3, t, 0, 10, MPI_COMM_SELF, MPI_STATUS_IGNORE);
+    std::ostringstream os;
+    os << "size=" << sz << " extent=" << (long)ext << " [";
+    for (int i = 0; i < 3; ++i) os << (i ? "," : "") << hexFixed(toMpz<k>(dst[i]), n);
+    os << "]";
+    res.impl = os.str();
+    if (sz != 2 * n) res.oracle = "FAIL the MPI datatype carries " + std::to_string(sz) + " bytes, the value has " + std::to_string(2 * n);
+    else if ((long)ext != (long)sizeof(Big) || lb != 0) res.oracle = "FAIL extent of the MPI datatype is not sizeof(bigunsignedint<k>)";
+    else for (int i = 0; i < 3; ++i)
+      if (toMpz<k>(dst[i]) != V[i]) { res.oracle = "FAIL element " + std::to_string(i) + " received as " + hexOf(toMpz<k>(dst[i])) + ", sent " + hexOf(V[i]); break; }
+      else if (toMpz<k>(src[i]) != V[i]) { res.oracle = "FAIL send buffer modified"; break; }
+#else
+    res.impl = "bad-op";
+    res.oracle = "FAIL harness built without MPI";
+#endif
+    return res;
+  }
   if (op == "default") {
     Big a;
     return valueResult<k>(a, 0);
@@ -702,7 +751,7 @@ std::string gen(Rng& r, long, const Args& a) {
       "add_u", "sub_u", "mul_u", "div_u", "mod_u", "u_add", "u_sub", "u_mul", "u_div", "u_mod",
       "add", "sub", "mul", "shl", "shr", "lt", "le", "div", "mod", "todouble",
       "prog", "prog", "prog", "prog", "prog", "prog", "prog", "prog", "prog", "prog", "ctor", "ctor", "ctor", "default", "limits",
-      "printfl"};
+      "printfl", "mpi"};
   int k = KS[r.below(NKS)];
   int n = k / 16 + (k % 16 != 0);
   std::string op = r.pick(ops);
@@ -926,6 +975,10 @@ std::string gen(Rng& r, long, const Args& a) {
   }
   if (op.size() > 2 && op.substr(op.size() - 2) == "_u") { os << " " << hexOf(genVal(r, n)) << " " << small64(); return os.str(); }
   if (op.substr(0, 2) == "u_") { os << " " << small64() << " " << hexOf(genVal(r, n)); return os.str(); }
+  if (op == "mpi") {
+    for (int i = 0; i < 3; ++i) os << " " << hexOf(genVal(r, n));
+    return os.str();
+  }
   if (op == "printfl") {
     mpz_class a = genVal(r, n);
     if (r.coin(1, 3)) a = a >> (int)r.below(16 * n);
